@@ -88,11 +88,15 @@ func c09CheckCache(c c09CacheCase) h.Result {
 	if c.Capacity <= 0 || len(c.Pool.Keys) == 0 {
 		return r.Result()
 	}
-	lc, isLRU := NewLRUCache(c.Capacity).(*lruCache)
-	if !isLRU {
-		return r.Fail("NewLRUCache:unexpected-type", "").Result()
+	// The structural invariants read the fields of the repository's LRU.  A constructor that hands out another
+	// implementation of the Cache interface is not wrong for that: the history is then judged through Get/Put and the
+	// verification results only (class opaque-cache-type), which still shows a wrong eviction order or a wrong value.
+	ci := NewLRUCache(c.Capacity)
+	lc, _ := ci.(*lruCache)
+	if lc == nil {
+		r.Class("opaque-cache-type")
 	}
-	v := NewVerifier(lc)
+	v := NewVerifier(ci)
 	model := ref.NewLRU[string, *c09Val](c.Capacity)
 	bv := ed25519.NewBatchVerifier()
 	var bwant, bcofl []bool
@@ -157,6 +161,9 @@ func c09CheckCache(c c09CacheCase) h.Result {
 	learn := func(pk []byte) {
 		var ck curve.CompressedEdwardsY
 		copy(ck[:], pk)
+		if lc == nil {
+			return
+		}
 		if ent := lc.store[ck]; ent != nil {
 			if val, ok := model.Peek(string(pk)); ok && val.p == nil {
 				val.p = ent.publicKey
@@ -166,6 +173,9 @@ func c09CheckCache(c c09CacheCase) h.Result {
 
 	inv := func(opi int, what string) bool {
 		r.Eval(1)
+		if lc == nil {
+			return true
+		}
 		if len(lc.store) != lc.list.Len() {
 			r.Fail("lruCache:store-list-size-mismatch", "after op %d (%s): len(store)=%d list.Len()=%d", opi, what, len(lc.store), lc.list.Len())
 			return false
@@ -325,7 +335,7 @@ func c09CheckCache(c c09CacheCase) h.Result {
 			ckp := new(curve.CompressedEdwardsY)
 			copy(ckp[:], pk)
 			if op.K == "get" {
-				got := lc.Get(ckp)
+				got := ci.Get(ckp)
 				for i := range ckp {
 					ckp[i] = 0xee
 				}
@@ -351,7 +361,7 @@ func c09CheckCache(c c09CacheCase) h.Result {
 					evictions++
 				}
 				r.Class(fmt.Sprintf("put/resident:%v/evict:%v", resident, did))
-				lc.Put(ckp, xk)
+				ci.Put(ckp, xk)
 				for i := range ckp {
 					ckp[i] = 0xee
 				}
@@ -381,7 +391,7 @@ func c09CheckCache(c c09CacheCase) h.Result {
 		}
 		var ck curve.CompressedEdwardsY
 		copy(ck[:], pk)
-		got := lc.Get(&ck)
+		got := ci.Get(&ck)
 		val, ok := model.Get(string(pk))
 		r.Eval(1)
 		if (got != nil) != ok || (ok && val.p != nil && got != val.p) {
